@@ -122,6 +122,7 @@ type schemaBuilder struct {
 	annotated  bool
 	discovered []*entityDecl
 	postDecls  []*entityDecl
+	expanding  map[*types.TypeName]bool // named types being expanded on behalf of an alias declaration
 }
 
 func (s *schemaBuilder) inferNames() (goName string, name string) {
@@ -389,7 +390,14 @@ func (s *schemaBuilder) buildFromType(tpe types.Type, tgt swaggerTypable) error 
 			return nil
 		}
 
-		if s.decl.Spec.Assign.IsValid() {
+		if s.decl.Spec.Assign.IsValid() && !s.expanding[tio] {
+			// the declaration being built is an alias: named types are described by what they stand for -
+			// except a type met again while it is being described (it refers to itself), which gets a $ref like anywhere else
+			if s.expanding == nil {
+				s.expanding = make(map[*types.TypeName]bool)
+			}
+			s.expanding[tio] = true
+			defer delete(s.expanding, tio)
 			return s.buildFromType(titpe.Underlying(), tgt)
 		}
 
